@@ -173,20 +173,24 @@ func main() {
 	a := vh.ParseArgs()
 	rng := vh.NewRng(a.Seed)
 	K, nRandom, nAsync := 200, 12, 60
+	perShard := 700
 	if a.Thorough() {
-		K, nRandom, nAsync = 2000, 40, 1500
+		// K=2000 with 700 cases per shard gave 63 case files, 27 min wall on the loaded machine (model evaluation cost grows
+		// with k: a shard of k=1400..2000 alone took 67 s); K=1500 and 1300 cases per shard: <= 32 shards
+		K, nRandom, nAsync = 1500, 40, 1500
+		perShard = 1300
 	}
 	if a.N > 0 {
 		K = a.N
 	}
 	rep := vh.NewReport(a, fmt.Sprintf("part 1: 28 fixed loop shapes + 4 terminating forms whose last hook call is deferred (plain loops, if/else bodies, nested calls, loops inside called functions, "+
 		"deferred closures/functions containing the loop, defer statements before and inside the loop, top-level blocks, recursion) + %d PRNG loop bodies; "+
-		"for each shape and EVERY k in 1..%d (thorough: 1..2000 for the 12 basic shapes, 1..500 for the other fixed, 1..300 for PRNG shapes) the compiled hook calls Interp.Interrupt at its k-th call (one interpreter serves 16 consecutive k, then a fresh one); observed = number of later hook calls, panic class; "+
+		"for each shape and EVERY k in 1..%d (thorough: 1..1500 for the 12 basic shapes, 1..500 for the other fixed, 1..300 for PRNG shapes) the compiled hook calls Interp.Interrupt at its k-th call (one interpreter serves 16 consecutive k, then a fresh one); observed = number of later hook calls, panic class; "+
 		"part 2: %d asynchronous deliveries from another goroutine a PRNG delay (0..3ms) after the evaluation signalled that it started running, into 6 call-free tight loops (time bound 5s); "+
 		"after every case the Run record is compared with an idle interpreter's; after k<=16, k multiple of 14 or 15, k=71, k=K and after every async case a 22-evaluation battery is compared with an uninterrupted interpreter holding the same definitions; "+
 		"a case is non-trivial when the interrupt was delivered while interpreted code was running (always); distinct by SHA-256 of (shape source, k)", nRandom, K, nAsync))
 	wd := vh.NewWatchdog(rep, 120*time.Second) // generous: the machine may be heavily loaded; a real hang is still reported
-	cw := vh.NewCases(a, "From Coq Require Import List Arith ZArith.\nFrom Verif Require Import C13.Model.\nImport ListNotations.", "case", "mismatches", 700)
+	cw := vh.NewCases(a, "From Coq Require Import List Arith ZArith.\nFrom Verif Require Import C13.Model.\nImport ListNotations.", "case", "mismatches", perShard)
 
 	idx := 0
 	maxLater := 0
@@ -199,7 +203,7 @@ func main() {
 		if sh.MaxK > 0 {
 			Ksh = sh.MaxK
 		}
-		// thorough: the first 12 (basic) shapes get every k <= 2000, the other fixed shapes every k <= 500,
+		// thorough: the first 12 (basic) shapes get every k <= 1500, the other fixed shapes every k <= 500,
 		// the PRNG shapes every k <= 300 (model evaluation cost grows with k)
 		if strings.HasPrefix(sh.Name, "random#") && Ksh > 300 {
 			Ksh = 300
